@@ -6,7 +6,7 @@ NOTES = ("Static analysis only: every check re-extracts a typed AST + CFG of the
 ENGINES = [
     {"name": "tlxir", "path": "tools/tlxir.cc", "serves_properties": ["C15"],
      "kind_free_text": "clang LibTooling extractor: typed AST with resolved callees, template instantiations, clang CFG -> JSON"},
-    {"name": "engine A (order abstraction / decision tables)", "path": "engine/dtable.py", "serves_properties": ["C15", "C09"],
+    {"name": "engine A (order abstraction / decision tables)", "path": "engine/dtable.py", "serves_properties": ["C15", "C09", "C05"],
      "kind_free_text": "comparator-network extraction + zero-one principle; decision tables over comparison atoms"},
 ]
 
@@ -56,6 +56,19 @@ CLAIMS["C12"] = dict(
           "RC-ATOMIC-RMW: inc/dec are single atomic RMWs and the release decision is the decrement's own result with order >= acq_rel; "
           "RC-COPY-ZERO. Sequentially this decides the per-operation obligations completely; the concurrent clause is reduced to the atomic-RMW rule."),
     note=(TRUST + "Not decided: interleavings as such (argued from the atomicity of the single RMW), user-supplied pointee types that break the inc/dec protocol."),
+)
+
+CLAIMS["C05"] = dict(
+    level="other",
+    technique="static analysis: order automata extracted from the goto-encoded 3/4-way merges (abstract states = label x weak order of heads, explored to fixpoint), decision tables for comparison operators / two-way merge / bubble merge, event-order (typestate) rule for the loser-tree drivers, linear phase-length conservation and value-set dispatch analysis",
+    text=("MERGE34-*: all four 3/4-way variants emit the stable minimum in every reachable abstract state (up to 300 states, 977 transitions), "
+          "pair every emission with ++target/--size/++that sequence and a length test, and write all cursors back. GUARD-OPS-TABLE, MERGE2-TABLE, "
+          "BUBBLE-TABLE: comparison and exchange decisions equal the (stable) order on all weak-order-consistent valuations. PHASE-LENGTH-SUM / TAIL-ORDER / "
+          "PREPARE-BOUNDS: the combined variants emit exactly `size` elements over their two phases, merge the remaining sequences in index order and split "
+          "with upper/lower_bound as stability requires. DISPATCH-TOTAL / STABLE-PROPAGATE / SENTINEL-REACH / FRONTEND-FLAGS over the four base instantiations. "
+          "LT-PROTOCOL for the loser-tree drivers. Complete for k<=4 given sorted inputs; k>=5 rests on C09."),
+    note=(TRUST + "Assumes sorted inputs, strict weak order, size <= total. Not decided: overhang arithmetic inside prepare_unguarded, k=1 copy, the "
+          "tournament induction for k>=5, iterator validity of unguarded variants (sentinel contract)."),
 )
 
 NOT_APPLICABLE = {}
